@@ -98,6 +98,13 @@ def run_property(spec, tier, seed):
     if hits:
         props["ok"] = False
         props["discharged"] = 0
+    chk = None
+    if tier == "thorough" and mk_ok and props["ok"] and spec["props_files"]:
+        chk = core.coqchk(spec["props_files"])
+        if not chk["ok"]:
+            props["ok"] = False
+            props["log"] += "\ncoqchk failed:\n" + chk["summary"]
+            props["file"] = props["file"] or spec["props_files"][0]
     proof_broken = None
     if not mk_ok:
         site = core.coq_error_site(mk_log) or {"file": "?", "line": 0, "statement": None}
@@ -183,6 +190,7 @@ def run_property(spec, tier, seed):
         "theorems": props["theorems"],
         "print_assumptions": {"closed_under_global_context": props["closed"], "axioms": props["axioms"]},
         "forbidden_vernacular_hits": hits,
+        "coqchk": chk,
         "evaluations": total_cases,
         "distinct_nontrivial": len(nontrivial_keys),
         "distinct": len(all_keys),
